@@ -18,6 +18,7 @@ AXIOMS = []        # Axiom
 TRUSTED = []       # free-text entries for the evidence (external contracts, assumptions)
 GHOST_FIELDS = set()
 LEMMAS = []
+INVARIANTS = []    # class invariants (visible-state semantics), see run.assume_invariants
 
 
 class Clause:
@@ -63,7 +64,15 @@ class Contract:
         self.twin = kw.pop("twin", None)                # relational obligations (C13)
         self.fresh_result = kw.pop("fresh_result", False)
         self.old_params = kw.pop("old_params", True)
-        self.static_only = kw.pop("static_only", False)   # only for super()/exact-type calls; dispatch uses `refines`
+        self.static_only = kw.pop("static_only", False)
+        self.aliases = kw.pop("aliases", {})       # clause name -> parameter name (overrides that renamed parameters)
+        self.heapfn = kw.pop("heapfn", False)     # pure method used as a function of (heap, receiver, args): Dafny-style
+        self.value = kw.pop("value", None)        # closed form of the result (pure): callers use the expression itself
+        if self.value is not None:
+            self.value_ast = ast.parse(" ".join(self.value.split()), mode="eval").body
+            self.pure = True
+        if self.heapfn:
+            self.pure = True   # only for super()/exact-type calls; dispatch uses `refines`
         if kw:
             raise TypeError(f"contract {qual}: unknown keys {list(kw)}")
         self._mod_asts = None
@@ -144,7 +153,13 @@ def field_type(cls, field):
 def refine(qual, base, **kw):
     """contract of an override = the clauses of the abstract contract + its own (behavioural subtyping)"""
     b = CONTRACTS[base]
+    aliases = {}
+    if "params" in kw:
+        for (bn, _), (nn, _) in zip(b.params.items(), kw["params"].items()):
+            if bn != nn:
+                aliases[bn] = nn
     kw.setdefault("params", dict(b.params))
+    kw["aliases"] = aliases
     if "returns" not in kw and b.returns is not None:
         kw["returns"] = b.returns
     kw["requires"] = list(b.requires) + kw.get("requires", [])
@@ -152,6 +167,9 @@ def refine(qual, base, **kw):
     kw.setdefault("modifies", list(b.modifies))
     kw["refines"] = base
     kw.setdefault("pure", b.pure)
+    kw.setdefault("heapfn", b.heapfn)
+    if b.value is not None:
+        kw.setdefault("value", b.value)
     return fn(qual, **kw)
 
 
@@ -162,10 +180,12 @@ def load_contracts():
     if _LOADED[0]:
         return
     _LOADED[0] = True
+    import sys
     for path in sorted(glob.glob(os.path.join(VERIF, "contracts", "*.py"))):
         name = "pyvc_contracts_" + os.path.basename(path)[:-3]
         spec = importlib.util.spec_from_file_location(name, path)
         mod = importlib.util.module_from_spec(spec)
+        sys.modules[name] = mod
         spec.loader.exec_module(mod)
 
 
@@ -179,3 +199,14 @@ def canary(base, name, tags, **extra):
                  loops=extra.get("loops", b.loops), tags=tags, pure=b.pure, locals={k: v for k, v in b.locals.items()})
     CONTRACTS[c.qual] = c
     return c
+
+
+class Invariant:
+    def __init__(self, cls, label, text, tags=""):
+        self.cls, self.label = cls, label
+        self.clause = Clause(label, text, tags)
+        self.tags = self.clause.tags
+
+
+def invariant(cls, label, text, tags=""):
+    INVARIANTS.append(Invariant(cls, label, text, tags))
